@@ -61,7 +61,7 @@ func routeIndex(tb *Table, name string) int {
 // which oracle reports.
 func runRouting(e *Env, params bool) {
 	if !params {
-		e.Rule = "route tables (1..12 routes) drawn from a pattern AST (literal/var/prefix+var+suffix segments, 11 regex classes incl. global vars, nested optional tails, bare literal tails, '.' in literals; random method subsets; overlapping patterns derived from earlier ones), cache off/on; probes = instantiations, one-step mutations and class near-misses of every pattern + random paths, x 9 methods, lower-case and unknown method tokens, via Match and ServeHTTP. Oracle: backtracking matcher over the AST + documented priority (static, literal-first-segment group, rest; earliest wins). A probe is non-trivial when >= 2 routes qualify or it is a near-miss/mutation of a registered pattern; distinct by (table, method, path)."
+		e.Rule = "route tables (1..12 routes; up to 40 in the thorough tier) drawn from a pattern AST (literal/var/prefix+var+suffix segments, 15 regex classes incl. built-in and user-defined global vars and inline regexes on global-named variables, nested optional tails, bare literal tails, '.' in literals; random method subsets; overlapping patterns derived from earlier ones), cache off/on; probes = instantiations, one-step mutations and class near-misses of every pattern + random paths, x 9 methods, lower-case and unknown method tokens, via Match and ServeHTTP. Oracle: backtracking matcher over the AST + documented priority (static, literal-first-segment group, rest; earliest wins). A probe is non-trivial when >= 2 routes qualify or it is a near-miss/mutation of a registered pattern; distinct by (table, method, path)."
 	} else {
 		e.Rule = "same tables/probes as C01; every selected dynamic route's params are checked against ALL decompositions the AST matcher finds (key set == variable names, round trip reproduces the normalised path, each present value satisfies its class, unique decomposition => equal), static => no params, handler view == Match view, cache hit == miss. Non-trivial when the pattern has >= 2 vars, an optional part, a literal prefix/suffix in the variable's segment, or the observation is a cache hit; distinct by (pattern, method, path, hit)."
 	}
@@ -70,7 +70,7 @@ func runRouting(e *Env, params bool) {
 		"the reference matcher and the 11 class regexes are the trusted statement of the documented semantics",
 		"handlers treat Params as read-only",
 	}
-	nTables := e.N(1500, 60000)
+	nTables := e.N(4000, 60000)
 	e.RunCases("tables", nTables, 0, func(t *T) { routingCase(t, params) })
 	if !params {
 		e.Require("probes.multi_qualifier", 50)
@@ -86,6 +86,9 @@ func runRouting(e *Env, params bool) {
 func routingCase(t *T, params bool) {
 	r := t.R
 	n := 1 + r.IntN(12)
+	if t.E.Thorough() && chance(r, 1, 10) {
+		n = 13 + r.IntN(28) // larger tables in the thorough tier
+	}
 	tb := GenTable(r, n, 45)
 	capacity := -1 // cache off
 	if chance(r, 1, 2) {
